@@ -2,7 +2,10 @@
 
 package mc
 
-import "time"
+import (
+	"strings"
+	"time"
+)
 
 // runSkeletons explores all <=k-deviation histories around the shared skeletons
 // with the given monitors (plus the halt monitor's trace for context).
@@ -71,7 +74,7 @@ func init() {
 		}
 		keep := func(l string) bool {
 			return hasAnyPrefix(l, "Propose(Payer,R1rep,warning,full)", "Propose(Payer,R1rep,major,full)", "Propose(Payer,R2rep,minor,full)", "Propose(R2,R1rep,warning,frombond)", "AddFee(R2,last,rest,frombond)",
-				"Undelegate(R1,V1,half)", "Redelegate(R1,V1->V2,half)", "Delegate(Payer,V3,150)", "WithdrawTip(R1,V1)", "FeeRefund(R2)", "Vote(Team,invalid)", "Vote(Team,support)")
+				"Undelegate(R1,V1,half)", "Redelegate(R1,V1->V2,half)", "Delegate(Payer,V3,150)", "WithdrawTip(R1,V1)", "WithdrawTip(R2,V2)", "FeeRefund(R2)", "Vote(Team,invalid)", "Vote(Team,support)")
 		}
 		prep := []string{"Tip(cyc,1000)", "Submit(R1,cyc,std)", "Submit(R2,cyc,std200)", b1, b1, b1}
 		gaps := []time.Duration{time.Second, 72*time.Hour + time.Millisecond}
@@ -80,12 +83,33 @@ func init() {
 		focusedDFSX(rc, "pool-dfs-slashed-maxval2", Config{ValStakes: []int64{5000, 3000, 2900}, MaxValidators: 2}, false, prep, keep, gaps, mons, depth, hz, true)
 		runSkeletons(rc, mons, kOf(rc))
 	}, Level: "model_checking",
-		Rule:        sharedRule + "plus an exhaustive DFS depth 4 (quick) / 6 (thorough) in two validator-cap worlds over {validator slashed 1% by evidence (exchange rate != 1), disputes warning/major/minor/from-bond, add-fee from bond, undelegate/redelegate half, bonding-set change, withdraw tip, fee refund, team votes, Block 1s/3d+1ms}; oracle after every accepted operation and block: bonded pool >= tokens of bonded validators, not-bonded pool >= tokens of other validators + unbonding entries, SDK NonNegativePower/PositiveDelegation/DelegatorShares invariants, pool excess (pools minus ledger) never shrinks in a transition and grows by at most one unit per returned entry",
+		Rule:        sharedRule + "plus an exhaustive DFS depth 4 (quick) / 6 (thorough) in two validator-cap worlds over {validator slashed 1% by evidence (exchange rate != 1), validator jailed for downtime (unbonding), tips withdrawn to it, disputes warning/major/minor/from-bond, add-fee from bond, undelegate/redelegate half, bonding-set change, withdraw tip, fee refund, team votes, Block 1s/3d+1ms}; oracle after every accepted operation and block: bonded pool >= tokens of bonded validators, not-bonded pool >= tokens of other validators + unbonding entries, SDK NonNegativePower/PositiveDelegation/DelegatorShares invariants, pool excess (pools minus ledger) never shrinks in a transition and grows by at most one unit per returned entry",
 		QuickBudget: 10 * time.Minute, ThoroughBudget: 15 * time.Minute})
 	Register("C08", &CheckInfo{Fn: func(rc *RunCtx) { runSkeletons(rc, []Monitor{AggMonitor{}}, kOf(rc), skOracle...) }, Level: "model_checking",
 		Rule:        sharedRule + "oracle on every transition: the Aggregates collection changes only by appending a key with a larger timestamp and index+1, or by Flagged false->true; whenever the collection changed, every lookup (current, before, before-by-reporter, by index 0..len+1, by timestamp, timestamp before/after) is compared with the chronological list model at one probe per region of the timestamp axis, and the previous/next timestamps of every new attestation snapshot with the list neighbours; a newly flagged aggregate is named by some dispute's evidence, and when a dispute becomes funded every aggregate its report determined is flagged",
 		QuickBudget: 10 * time.Minute, ThoroughBudget: 15 * time.Minute})
-	Register("C19", &CheckInfo{Fn: func(rc *RunCtx) { runSkeletons(rc, []Monitor{FrameMonitor{}}, kOf(rc)) }, Level: "model_checking",
+	Register("C19", &CheckInfo{Fn: func(rc *RunCtx) {
+		runSkeletons(rc, []Monitor{FrameMonitor{}}, kOf(rc))
+		// a chain whose dispute genesis carries no team address: every privileged message, again with a user as signer
+		if rc.Replay == nil || rc.Replay.Scenario == "governance-no-team" {
+			for _, s := range Skeletons() {
+				if s.Name != "governance" {
+					continue
+				}
+				s.Name, s.Cfg.NoTeam = "governance-no-team", true
+				w, _, sk, alpha := BuildSkeleton(s)
+				e := &Explorer{RC: rc, Scenario: s.Name, Monitors: []Monitor{FrameMonitor{}}, Horizon: QuiesceHorizon}
+				if rc.Replay != nil {
+					end := e.ReplayTrace(w, rc.Replay.Trace, Resolver(sk, alpha))
+					if end.Halt == nil {
+						e.RunHorizon(end)
+					}
+					return
+				}
+				e.Deviations(w, sk, alpha, 1)
+			}
+		}
+	}, Level: "model_checking",
 		Rule:        sharedRule + "oracle around every accepted tx: privileged messages signed by a non-authority are never accepted; for every account other than the signers (liquid balance, delegated+unbonding stake, reward credit, selected reporter) is not reduced/changed except the three listed exceptions; registered specs change only via MsgUpdateDataSpec",
 		QuickBudget: 10 * time.Minute, ThoroughBudget: 15 * time.Minute})
 }
@@ -110,7 +134,7 @@ func focusedDFSX(rc *RunCtx, name string, cfg Config, mintOn bool, prep []string
 	alpha := func(w *World) []Event {
 		var out []Event
 		for _, ev := range full(w) {
-			if keep(ev.Label) || ev.Tag == "env/slash" {
+			if keep(ev.Label) || strings.HasPrefix(ev.Tag, "env/") {
 				out = append(out, ev)
 			}
 		}
@@ -135,7 +159,10 @@ func focusedDFSX(rc *RunCtx, name string, cfg Config, mintOn bool, prep []string
 		n, out := e.Step(cur, ev)
 		e.quiet = false
 		if out.Kind == "tx-rej" || out.Kind == "halt" {
-			panic(name + " prep failed at " + l + ": " + out.Err)
+			// the tree under test does not accept this prefix (it does on the pinned tree): the steps so far were
+			// monitored, the search from it is skipped and the fact is counted in the evidence
+			rc.Distinct("prefixes_not_reachable", name+" at "+l+": "+NormErr(out.Err))
+			return
 		}
 		cur = n
 	}
@@ -199,7 +226,7 @@ func init() {
 			}
 			keep := func(l string) bool {
 				return hasAnyPrefix(l, "Delegate(R1,V1,10)", "Delegate(S1,V2,5)", "Delegate(Payer,V3,150)", "Undelegate(R1,V1,all)", "Undelegate(R1,V1,half)", "Undelegate(S1,V1,all)", "Redelegate(R1,V1->V2,half)", "Redelegate(R2,V2->V3,all)",
-					"Delegate+CreateReporter(Payer,comm=0)", "Delegate+Select(Payer->R1)", "Switch(", "RemoveSelector", "ReporterParams(gov,maxsel=1)", "Propose(Payer,R1rep,warning,full)", "Unjail(R1)", "CreateReporter(S1,already)", "Submit(S1,cyc,std)",
+					"Delegate+CreateReporter(Payer,comm=0)", "Delegate+Select(Payer->R1)", "Switch(", "RemoveSelector", "ReporterParams(gov,maxsel=1)", "Propose(Payer,R1rep,warning,full)", "Unjail(R1)", "CreateReporter(S1,already)", "Submit(S1,cyc,std)", "Delegate+CreateReporter(Payer,min=5TRB)", "Delegate(Tipper,V1,2)", "Select(Tipper->Payer)",
 					"Submit(R1,cyc,std)", "Submit(R2,cyc,std200)", "Submit(R1,modeq,std)", "Tip(modeq,50)")
 			}
 			gaps := []time.Duration{time.Second, 21*24*time.Hour + time.Second}
